@@ -131,9 +131,9 @@ def run_benign(names):
 
 if __name__ == "__main__":
     if len(sys.argv) > 1 and sys.argv[1] == "--benign":
-        run_benign(sys.argv[2:] or sorted(f for f in os.listdir(os.path.join(VERIF, "mutants")) if f.startswith("benign_")))
+        run_benign(sys.argv[2:] or sorted(f for f in os.listdir(os.path.join(VERIF, "mutants")) if f.startswith("benign")))
     elif len(sys.argv) > 1 and sys.argv[1] == "--mutants":
-        names = sys.argv[2:] or sorted(f for f in os.listdir(os.path.join(VERIF, "mutants")) if f.endswith(".patch") and not f.startswith("benign_"))
+        names = sys.argv[2:] or sorted(f for f in os.listdir(os.path.join(VERIF, "mutants")) if f.endswith(".patch") and not f.startswith("benign"))
         run_mutants(names)
     else:
         ids = sys.argv[1:] or sorted(os.listdir(os.path.join(VERIF, "seeded")))
